@@ -84,6 +84,9 @@ type histStats struct {
 func cfgForHistory(r *gen.Rng, idx int) gen.Cfg {
 	c := gen.Cfg{SHA256: idx%2 == 1}
 	c.BlockSize = []uint32{0, 0, 256, 512, 1024, 4096}[r.Intn(6)]
+	if idx%6 == 0 {
+		c.BlockSize = 256 // with a large first transaction: multi-level indexes after compaction
+	}
 	if c.SHA256 && c.BlockSize == 256 {
 		c.BlockSize = 400
 	}
@@ -295,6 +298,10 @@ func runHistory(c *Ctx, genName string, idx int, hooks *historyHooks) {
 			kind = "reopen"
 		case x < 0.24:
 			kind = "autocompact"
+		case x < 0.34 && haveCompactRange:
+			kind = "compactrange"
+		case x < 0.55 && haveCompactRange && opts.NoLogs:
+			kind = "compactrange" // ranges that may cancel out completely
 		}
 		var added *tabInfo
 		desc := kind
@@ -305,6 +312,9 @@ func runHistory(c *Ctx, genName string, idx int, hooks *historyHooks) {
 			o := opts
 			if op == 0 && bigFirst {
 				o.Filler = 60 + rng.Intn(200)
+				if idx%6 == 0 {
+					o.Filler = 500 + rng.Intn(400) // multi-level index after compaction at small block sizes
+				}
 			} else if rng.Chance(0.1) {
 				o.Filler = rng.Intn(40)
 			}
@@ -329,6 +339,18 @@ func runHistory(c *Ctx, genName string, idx int, hooks *historyHooks) {
 			opErr = rtx.Safe(func() error { return st.CompactAll(nil) })
 		case "autocompact":
 			opErr = rtx.Safe(func() error { return st.AutoCompact() })
+		case "compactrange":
+			n := len(stx.Names(st))
+			first, last := 0, 0
+			if n >= 2 {
+				first = rng.Intn(n - 1)
+				if rng.Chance(0.4) {
+					first = 0
+				}
+				last = first + 1 + rng.Intn(n-first-1)
+			}
+			desc = fmt.Sprintf("compactrange [%d,%d] of %d", first, last, n)
+			opErr = rtx.Safe(func() error { _, e := compactRange(st, first, last); return e })
 		case "reopen":
 			stx.SafeClose(st)
 			st, err = stx.Open(dir, cfg)
@@ -406,6 +428,13 @@ func runHistory(c *Ctx, genName string, idx int, hooks *historyHooks) {
 			fail(props, what+"|view-mismatch|"+mismatchClass(wr, wl, refs, logs), fmt.Sprintf("after %q (tables %v): %s", desc, names, d))
 			break
 		}
+		// point lookups must agree with the scan (index paths of compacted tables)
+		if compacted || op%4 == 0 {
+			if d := pointLookups(st, refs, logs); d != "" {
+				fail(props, what+"|point-lookup-differs-from-scan", fmt.Sprintf("after %q (tables %v): %s", desc, names, d))
+				break
+			}
+		}
 		if op%5 == 4 || op == nops-1 {
 			fd, _, err := stx.FreshView(dir, cfg)
 			if err != nil {
@@ -460,3 +489,53 @@ func sortedKeys(m map[string]bool) []string {
 }
 
 var _ = strings.Join
+
+// pointLookups reads refs and log entries by name through the handle's merged view and
+// compares them with the records the full scan returned.
+func pointLookups(st *reftable.Stack, refs []gen.Ref, logs []gen.Log) string {
+	m := st.Merged()
+	var out string
+	err := rtx.Safe(func() error {
+		step := 1 + len(refs)/40
+		for i := range refs {
+			if i%step != 0 && i < len(refs)-4 {
+				continue
+			}
+			rr, err := reftable.ReadRef(m, refs[i].Name)
+			if err != nil {
+				return fmt.Errorf("ReadRef(%q): %v", refs[i].Name, err)
+			}
+			if rr == nil {
+				out = fmt.Sprintf("ReadRef(%q) finds nothing, the scan returned %s", refs[i].Name, refs[i].Line())
+				return nil
+			}
+			if g := rtx.FromRef(rr); !g.Equal(&refs[i]) {
+				out = fmt.Sprintf("ReadRef(%q) = %s, the scan returned %s", refs[i].Name, g.Line(), refs[i].Line())
+				return nil
+			}
+		}
+		lstep := 1 + len(logs)/30
+		for i := range logs {
+			if i%lstep != 0 && i < len(logs)-3 {
+				continue
+			}
+			lr, err := reftable.ReadLogAt(m, logs[i].Name, logs[i].UI)
+			if err != nil {
+				return fmt.Errorf("ReadLogAt(%q,%d): %v", logs[i].Name, logs[i].UI, err)
+			}
+			if lr == nil {
+				out = fmt.Sprintf("ReadLogAt(%q,%d) finds nothing, the scan returned %s", logs[i].Name, logs[i].UI, logs[i].Line())
+				return nil
+			}
+			if g := rtx.FromLog(lr); !g.Equal(&logs[i]) {
+				out = fmt.Sprintf("ReadLogAt(%q,%d) = %s, the scan returned %s", logs[i].Name, logs[i].UI, g.Line(), logs[i].Line())
+				return nil
+			}
+		}
+		return nil
+	})
+	if err != nil {
+		return err.Error()
+	}
+	return out
+}
